@@ -156,6 +156,11 @@ def gen_case(rng, idx, comps_spec, tier):
         forcing += "harmonic {\n  name harm\n  colvars cv1\n  centers %s\n  forceConstant %s\n}\n" % (
             fnum(rng.uniform(0.0, 5.0) if comps[0]["ctype"] not in ("angle", "dihedral") else rng.uniform(10.0, 170.0)),
             fnum(rng.uniform(0.05, 2.0)))
+    if not periodic and rng.random() < 0.4:
+        # a wall the variable is always beyond: harmonicWalls forces reach the variable through the route that bypasses the
+        # extended Lagrangian (a different accumulator inside the variable than other biases)
+        forcing += "harmonicWalls {\n  name wall\n  colvars cv1\n  lowerWalls %s\n  forceConstant %s\n}\n" % (
+            fnum(400.0 if comps[0]["ctype"] in ("angle", "dihedral") else 60.0), fnum(rng.uniform(0.01, 0.2)))
     other = ""
     if hide:
         other = "abf {\n  name abfhide\n  colvars cv1\n  fullSamples 100000\n  hideJacobian on\n  applyBias off\n}\n"
